@@ -609,11 +609,126 @@ static void flush_found(const std::string& id)
     found.clear();
 }
 
+// ---------------------------------------------------------------------------------------
+// optional<T> for OTHER payload types: bool (T is constructible from the optional itself through its explicit
+// operator bool), a type with an unconstrained converting constructor, int, std::string, a vector; sources that
+// are non-const lvalues, const lvalues and temporaries
+struct Greedy
+{
+    int v = -1;
+    Greedy() = default;
+    Greedy(int x) : v(x)
+    {
+    }
+    template <typename U, typename = decltype(static_cast<bool>(std::declval<const U&>()))>
+    explicit Greedy(const U& u) : v(static_cast<bool>(u) ? 1000 : 2000) // "constructible from anything bool-like"
+    {
+    }
+    bool operator==(const Greedy& o) const
+    {
+        return v == o.v;
+    }
+};
+
+template <typename T>
+static void optional_type_case(const std::string& name, const T& x, const T& y)
+{
+    using O = nitro::lang::optional<T>;
+    auto check = [&](const char* what, const O& o, bool engaged, const T* value) {
+        stats["optional-type-checks"]++;
+        if (static_cast<bool>(o) != engaged)
+        {
+            viol("optional<" + name + ">:" + what + ":wrong-emptiness", engaged ? "expected a value" : "expected empty");
+            return;
+        }
+        if (engaged && !(*o == *value))
+            viol("optional<" + name + ">:" + what + ":wrong-value", "");
+        if (!engaged)
+        {
+            bool raised = false;
+            try
+            {
+                (void)*o;
+            }
+            catch (std::exception&)
+            {
+                raised = true;
+            }
+            if (!raised)
+                viol("optional<" + name + ">:" + what + ":reading-empty-did-not-raise", "");
+        }
+    };
+    O empty;
+    O full(x);
+    const O cempty;
+    const O cfull(x);
+    check("default-constructed", empty, false, nullptr);
+    check("constructed-from-value", full, true, &x);
+    {
+        O a(empty), b(full), c(cempty), d(cfull), e{ O() }, f{ O(x) };
+        check("copy-of-non-const-empty", a, false, nullptr);
+        check("copy-of-non-const-full", b, true, &x);
+        check("copy-of-const-empty", c, false, nullptr);
+        check("copy-of-const-full", d, true, &x);
+        check("copy-of-temporary-empty", e, false, nullptr);
+        check("copy-of-temporary-full", f, true, &x);
+        b = y; // the copy is independent
+        check("source-after-the-copy-was-assigned", full, true, &x);
+        check("copy-after-assignment", b, true, &y);
+    }
+    {
+        O t(y);
+        t = empty;
+        check("assigned-non-const-empty", t, false, nullptr);
+        t = full;
+        check("assigned-non-const-full", t, true, &x);
+        t = cempty;
+        check("assigned-const-empty", t, false, nullptr);
+        t = cfull;
+        check("assigned-const-full", t, true, &x);
+        t = O();
+        check("assigned-temporary-empty", t, false, nullptr);
+        t = O(y);
+        check("assigned-temporary-full", t, true, &y);
+        t = x;
+        check("assigned-value", t, true, &x);
+        T lv = y;
+        t = lv;
+        check("assigned-lvalue-value", t, true, &y);
+        check("source-untouched", full, true, &x);
+    }
+}
+
+static void optional_types()
+{
+    optional_type_case<bool>("bool", false, true);
+    optional_type_case<bool>("bool", true, false);
+    optional_type_case<int>("int", 0, 7);
+    optional_type_case<Greedy>("converting-constructor-type", Greedy(3), Greedy(4));
+    optional_type_case<std::string>("string", std::string("some text longer than the small buffer"), std::string());
+    optional_type_case<std::vector<int>>("vector<int>", std::vector<int>{ 1, 2, 3 }, std::vector<int>{});
+    optional_type_case<double>("double", 0.0, -1.5);
+    optional_type_case<char>("char", '\0', 'x');
+}
+
 int main(int argc, char** argv)
 {
     init();
     if (argc < 4)
         return 98;
+    if (std::string(argv[2]) == "types")
+    {
+        begin_case({ "CASE", "0" }, 60);
+        optional_types();
+        flush_found("optional-payload-types");
+        end_case();
+        std::string st = "STATS";
+        for (auto& kv : stats)
+            st += " " + kv.first + "=" + std::to_string(kv.second);
+        out(st);
+        std::fflush(stdout);
+        return 0;
+    }
     bool Q = argv[1][0] == 'Q';
     std::string mode = argv[2];
     std::size_t n = std::strtoull(argv[3], nullptr, 10);
